@@ -380,7 +380,7 @@ theorem alignAxes_lengths (axes : List (List Rat)) (tol : Rat) (m : Method) (ali
           | none => none
           | some (vals, done) =>
             let al := ax.map (fun x => alignIndex x vals tol m)
-            if hasDup al then none else some (sortedUnion vals al, done ++ [al])) (some (vals, done)) = some acc →
+            if hasDup al then none else some (sortedUnion [] (vals ++ al), done ++ [al])) (some (vals, done)) = some acc →
         acc.2.map List.length = done.map List.length ++ rest.map List.length := by
       intro rest
       induction rest with
@@ -399,7 +399,7 @@ theorem alignAxes_lengths (axes : List (List Rat)) (tol : Rat) (m : Method) (ali
               | none => none
               | some (vals, done) =>
                 let al := ax.map (fun x => alignIndex x vals tol m)
-                if hasDup al then none else some (sortedUnion vals al, done ++ [al])) none = none := by
+                if hasDup al then none else some (sortedUnion [] (vals ++ al), done ++ [al])) none = none := by
             intro l; induction l with
             | nil => rfl
             | cons a l ih => simpa using ih
